@@ -154,13 +154,30 @@ def sc_close_join(params, obs, save):
     hb = Heartbeat()
     before = set(threading.enumerate())
     up = []
-    pool = _mkpool(params, up)
+    extra = None
+    mid = threading.Event()
+    armed = []
+    if params.get('grow_mid_close'):
+        # close() lands while the supervisor is in the middle of a pass that
+        # starts several workers (the public on_process_up hook marks it)
+        def on_up(w):
+            up.append(w.pid)
+            log('process_up', wpid=w.pid)
+            if armed and not mid.is_set():
+                mid.set()
+                time.sleep(params.get('hook_nap', 0.5))
+        extra = {'on_process_up': on_up}
+    pool = _mkpool(params, up, extra)
     handles = []
     t_sub = time.monotonic()
     for job in params['jobs']:
         _submit(pool, job, handles)
     if params.get('close_delay'):
         time.sleep(params['close_delay'])
+    if params.get('grow_mid_close'):
+        armed.append(1)
+        pool.grow(params['grow_mid_close'])
+        obs['mid_reached'] = mid.wait(10)
     log('close_call')
     t0 = time.monotonic()
     pool.close()
@@ -222,6 +239,12 @@ def sc_terminate(params, obs, save):
     for i in range(params.get('finished_jobs', 2)):
         h = pool.apply_async(tasks.t_value, ('pre.%d' % i, 0.01))
         done_before.append(['pre.%d' % i, h, _get(pool, h, 30)])
+    if params.get('maxtasks') and params.get('threads', True):
+        # the jobs above used up quotas: wait for the replacement workers, so
+        # that terminate() has to deal with workers started after the pool was
+        _wait_for(lambda: len(up) > params['nproc'] and
+                  len([w for w in pool._pool if w.exitcode is None]) == params['nproc'], 8)
+        obs['replaced_before'] = len(up) - params['nproc']
     running = []
     state = params['worker_state']
     for i in range(params.get('busy', 1)):
@@ -248,6 +271,16 @@ def sc_terminate(params, obs, save):
         queued.append([tag, pool.apply_async(tasks.t_value, (tag, 0.2), **_lw(params))])
     if running:
         _wait_for(lambda: all(h.accepted() for _t, h in running[:params['nproc']]), 10)
+    feeding = params.get('feeding')
+    if feeding == 'lazy_imap':
+        # the task feeder is in the middle of one lazily produced sequence
+        def slow_items():
+            for i in range(200000):
+                time.sleep(0.005)
+                yield ['feed.%d' % i, 0]
+        fed = pool.imap_unordered(_star_value, slow_items())      # noqa
+    elif feeding == 'big_map':
+        fed = pool.map_async(tasks.t_identity, range(300000), 1)  # noqa
     time.sleep(params.get('settle', 0.2))
     obs['running_pids'] = [h.worker_pids() for _t, h in running]
     save()
